@@ -386,6 +386,14 @@ class Summariser:
 
     def _fork_bool(self, val, st):
         """a comparison used as a value: fork into 1 / 0 with the fact"""
+        if val is not None and val.k == 'call' and val.a[0] == 'PyBool_FromLong' \
+                and len(val.a[1]) == 1:
+            inner = val.a[1][0]
+            res = self._fork_bool(inner, st)
+            if len(res) > 1 or (res and res[0][0] is not inner):
+                return [(simplify(mk('call', 'PyBool_FromLong', [v], line=val.line)), s)
+                        for v, s in res]
+            return [(val, st)]
         if val is not None and val.k == 'bin' and val.a[0] in BOOL_OPS or \
                 (val is not None and val.k == 'un' and val.a[0] == '!'):
             out = []
